@@ -12,7 +12,7 @@ import (
 func init() {
 	register(&propDef{
 		id: "C17", level: "other", perCfg: true,
-		explain: "Necessary structural conditions of C17: template conformance of every context-aware I/O operation of the connection wrapper (found by role: methods of ctxio.Conn that start a helper goroutine), checked per operation (typestate on its CFG) and thereby across siblings. D1 arm: on every path from entry to the `go`, unconditionally, Set{Read|Write}Deadline(d) with d the deadline of the operation's own context, the kind matching the direction of the helper's I/O (an unconditional call also clears a deadline left by an earlier operation); the same holds for every path of the operation that performs I/O on the wrapped connection outside the helper (a path that returns without touching the connection needs no deadline). D2 cancel arm (the select case receiving from ctx.Done()): on every path first a deadline in the past on the matching side (a package variable written only by init with time.Unix of a small constant), then the join with the helper, then the disarm Set…Deadline(time.Time{}), and the operation returns ctx.Err(). D3 the result channel is buffered. D4 context propagation: every call in package varlink to a connection-wrapper operation passes a context rooted in the caller's own context parameter (possibly through context.With*); no context.Background()/TODO() in non-test code. D5 the per-connection context of the service is derived with cancel and the cancel is deferred before the read loop. D6 transports honour deadlines: for every repo type handed to the wrapper's constructor, its SetReadDeadline/SetWriteDeadline return nil only after delegating to the wrapped pipe end, or on the failing branch of a type test that - by the dynamic types stored at every construction site, resolved through os/exec's source - cannot fail. Functions are analysed in their inlined views (DESIGN 9.2): repository helpers are part of the function that calls them, so it does not matter whether a step is written out or factored into a helper. That includes helpers that take the I/O or the join as a function value. D4 also: a function value that takes a context of its own (the receive function Send hands out) performs its I/O under that context, not one captured from the call that created it.",
+		explain: "Necessary structural conditions of C17: template conformance of every context-aware I/O operation of the connection wrapper (found by role: methods of ctxio.Conn that start a helper goroutine), checked per operation (typestate on its CFG) and thereby across siblings. D1 arm: on every path from entry to the `go`, unconditionally, Set{Read|Write}Deadline(d) with d the deadline of the operation's own context, the kind matching the direction of the helper's I/O (an unconditional call also clears a deadline left by an earlier operation); the same holds for every path of the operation that performs I/O on the wrapped connection outside the helper (a path that returns without touching the connection needs no deadline). D2 cancel arm (the select case receiving from ctx.Done()): on every path first a deadline in the past on the matching side (a package variable written only by init with time.Unix of a small constant), then the join with the helper, then the disarm Set…Deadline(time.Time{}), and the operation returns ctx.Err(). D3 the result channel is buffered. D4 context propagation: every call in package varlink to a connection-wrapper operation passes a context rooted in the caller's own context parameter (possibly through context.With*); no context.Background()/TODO() in non-test code. D5 the per-connection context of the service is derived with cancel and the cancel is deferred before the read loop. D6 transports honour deadlines: for every repo type handed to the wrapper's constructor, its SetReadDeadline/SetWriteDeadline return nil only after delegating to the wrapped pipe end, or on the failing branch of a type test that - by the dynamic types stored at every construction site, resolved through os/exec's source - cannot fail. Functions are analysed in their inlined views (DESIGN 9.2): repository helpers are part of the function that calls them, so it does not matter whether a step is written out or factored into a helper. That includes helpers that take the I/O or the join as a function value. D4 also: a function value that takes a context of its own (the receive function Send hands out) performs its I/O under that context, not one captured from the call that created it. D7 an I/O operation never closes the connection it was given: after a cancelled or expired call the same connection must still be usable with a live context. D8 (= C10.S1,S2). D9 error discipline of the wrapper operations (engine errdisc): a deadline-setter error is returned, never dropped; success only with error known nil.",
 		notDec:  "Promptness in time; kernel behaviour of deadlines; bytes consumed by a cancelled delimiter read (a cancelled operation may have taken part of a frame out of the stream).",
 		trusted: []string{"net.Conn deadlines: a deadline in the past makes pending and future I/O fail with a timeout; the zero time clears it", "*os.File pipes support deadlines on this platform (os package contract)"},
 		run:     runC17,
